@@ -581,7 +581,7 @@ SPOOLED_MEM_ANY = _mk_spooled('mem', ok=False)
 SPOOLED_DISK_ANY = _mk_spooled('disk', ok=False)
 
 
-def _havoc_spooled(interp, f, tag):
+def _havoc_spooled(interp, f, tag, to_disk=False):
     """in-place havoc of a SpooledTextFile: it stays what it is with other contents, or (from the memory
     state) has been rolled over to a new file on disk"""
     def any_pos(o, contents):
@@ -594,7 +594,7 @@ def _havoc_spooled(interp, f, tag):
         textio.set_stored(interp, f._path, t)
         any_pos(f._file, t)
         return
-    if interp.st.choose(2) == 0:
+    if not to_disk and interp.st.choose(2) == 0:
         t = interp.st.fresh_str(tag + '.value')
         f._file._pv_ghost['value'] = t
         any_pos(f._file, t)
@@ -619,7 +619,7 @@ M.contract(_P_STF + '.__init__',
 
 M.contract(_P_STF + '._rollover', params=dict(self=Union(SPOOLED_MEM_ANY, SPOOLED_DISK_ANY)),
            old=lambda self: (spooled_written(self), self._path, self._max_size, spooled_position(self)),
-           modifies={'self': InPlaceBy(_havoc_spooled)},
+           modifies={'self': InPlaceBy(lambda interp, f, tag: _havoc_spooled(interp, f, tag, to_disk=True))},
            ensures={
                'on disk': lambda self, old: self._path is not None and (old[1] is None or self._path is old[1])
                                             and is_file_at(self._file, self._path),
